@@ -243,3 +243,148 @@ def _mk_source(eng, st, me, module):
 
 SITE_CONTRACTS = [Flatname(), c_elab.Fail(), InternalAdd(), ConnectLite(), IoForResolving(), CopyPort(), WhichPortref()]
 SITES = [Site("replace_noconn", _mk_noconn), Site("create_source", _mk_source)]
+
+
+# ------------------------------------------------------------------------------------------------ loop insertion sites
+# arrays.py, flatten_bundles.py, inst_bundles.py insert invented names inside loops / comprehensions.  The loop body (or the
+# comprehension's element expression) is located in the AST of the current source and executed symbolically from an
+# ARBITRARY state (any namespace content, any iteration), with Flatname / InternalAdd applied at their call sites:
+#   pre@callsite/Module.add   the name being inserted is absent from the namespace at the moment of insertion
+#   designer-names-kept       every key present before still maps to the same object afterwards
+# Holding for one arbitrary iteration from an arbitrary state, they hold for every iteration of every run.
+import ast as _ast
+from hdl21.elab.passes.arrays import ArrayFlattener
+from hdl21.elab.passes.flatten_bundles import BundleFlattener, Path as _BPath
+from hdl21.elab.passes.inst_bundles import InstBundleElabPass
+
+
+class PathToName(Contract):
+    key = "hdl21.elab.passes.flatten_bundles:Path.to_name"
+    returns = "str"
+
+    def scenarios(self, eng):
+        return []
+
+
+class InstanceCtor(Contract):
+    """Instance(of=..., name=...): a new Instance carrying that name (establishment proved under C04)."""
+    key = "hdl21.instance:Instance"
+    pure = False
+
+    def scenarios(self, eng):
+        return []
+
+    def apply(self, eng, st, args, kwargs, node=None):
+        r = st.alloc(Instance)
+        st.heap.put("_initialized", r.z, z3.BoolVal(True))
+        nm = kwargs.get("name")
+        if nm is None:
+            st.heap.put("name$none", r.z, z3.BoolVal(True))
+        else:
+            st.heap.put("name$none", r.z, z3.BoolVal(False))
+            st.heap.put("name", r.z, zstr(nm))
+        if isinstance(kwargs.get("of"), SRef):
+            st.heap.put("of", r.z, kwargs["of"].z)
+        return [(st, r)]
+
+
+def _has_add(node):
+    return any(isinstance(n, _ast.Call) and isinstance(n.func, _ast.Attribute) and n.func.attr == "add"
+               and isinstance(n.func.value, _ast.Name) and n.func.value.id == "module" for n in _ast.walk(node))
+
+
+def _named(st, ref):
+    st.assume(z3.Not(st.heap.get("name$none", ref.z)))
+    return ref
+
+
+def _site_arrays(eng, st, me, module):
+    arr = _named(st, sym_ref(st, "array", (InstanceArray,)))
+    return {"array": arr, "k": SInt(z3.Int("k")), "target": sym_ref(st, "target", (Module,)), "new_insts": [],
+            "name": SStr(z3.String("stale_name"))}
+
+
+def _site_bundles(eng, st, me, module):
+    bi = _named(st, sym_ref(st, "bundle_inst", (BundleInstance,)))
+    return {"bundle_inst": bi, "pathstr": sym_ref(st, "pathstr", (_BPath,)), "sig": sym_ref(st, "sig", (Signal,)),
+            "flat": Opaque("flat")}
+
+
+def _site_instbundles(eng, st, me, module):
+    ib = _named(st, sym_ref(st, "instbundle", (InstanceBundle,)))
+    of = st.heap.get("of", ib.z)
+    st.assume(z3.And(of != NULL, st.heap.get("$alive", of)))
+    st.assume(z3.Or([st.heap.get("$cls", of) == st.classid(k) for k in SITE_FIELD_CLASSES["of"]]))
+    return {"instbundle": ib, "signame": SStr(z3.String("signame"))}
+
+
+LOOP_SITES = [
+    ("hdl21.elab.passes.arrays:ArrayFlattener.elaborate_module", ArrayFlattener, _site_arrays),
+    ("hdl21.elab.passes.flatten_bundles:BundleFlattener.replace_bundle_inst", BundleFlattener, _site_bundles),
+    ("hdl21.elab.passes.inst_bundles:InstBundleElabPass.elaborate_instance_bundle", InstBundleElabPass, _site_instbundles),
+]
+
+
+def loop_site_obligations():
+    """-> [(function key, obligations, info)]"""
+    from pyvc import loader
+    from pyvc.engine import Frame
+    out = []
+    for key, cls, mk in LOOP_SITES:
+        ext = loader.extract(key)
+        info = {"sha": ext.sha, "lines": ext.lines, "path": ext.path, "paths": 0, "scenarios": 0, "unsupported": []}
+        obs = []
+        regions = []
+        for n in _ast.walk(ext.node):
+            if isinstance(n, (_ast.For, _ast.While)) and _has_add(n) and \
+                    not any(isinstance(c, (_ast.For, _ast.While)) and _has_add(c) for b in n.body for c in _ast.walk(b)):
+                regions.append(("loop", n))
+            elif isinstance(n, (_ast.DictComp, _ast.ListComp, _ast.SetComp, _ast.GeneratorExp)) and _has_add(n):
+                regions.append(("comp", n))
+        if not regions:
+            info["unsupported"].append("no insertion loop found (the function no longer inserts in a loop?)")
+        for ri, (kind, node) in enumerate(regions):
+            eng = mk_engine(contracts=[Flatname(), c_elab.Fail(), InternalAdd(), PathToName(), InstanceCtor()],
+                            field_classes=SITE_FIELD_CLASSES)
+            st = eng.new_state()
+            me = sym_ref(st, "self", (cls,))
+            module = sym_ref(st, "module", (Module,))
+            st.assume(st.heap.get("_initialized", module.z))
+            st.locals = {"self": me, "module": module}
+            st.locals.update(mk(eng, st, me, module))
+            st0 = st.fork()
+            eng.frames.append(Frame(ext, ext.key))
+            eng.cuts = []
+            try:
+                if kind == "loop":
+                    outs = eng.exec_block(node.body, st)
+                else:
+                    val = node.value if isinstance(node, _ast.DictComp) else node.elt
+                    outs = [("ok" if not isinstance(v, Exc) else "exc", s2, v) for s2, v in eng.ev(val, st)]
+            except Unsupported as e:
+                info["unsupported"].append(f"insertion region at line {node.lineno}: {e}")
+                continue
+            finally:
+                eng.frames.pop()
+            info["scenarios"] += 1
+            ns0 = st0.heap.get("namespace", module.z)
+            for pi, (k2, s2, v) in enumerate(outs):
+                info["paths"] += 1
+                pname = f"{key}/insertion@{node.lineno - ext.node.lineno}/p{pi}"
+                for (oname, opc, goal) in s2.obligations:
+                    obs.append(Obligation(f"{pname}/{oname.split('/')[0]}/{oname.split('/')[1].split(':')[-1]}",
+                                          "callsite", opc, zbool(goal), key, f"insertion-{ri}", pi,
+                                          {"trace": list(s2.trace)}))
+                if k2 == "exc":
+                    continue      # raising (flatname exhausted, type errors) is an allowed way out
+                adds = [c for c in s2.calls if c[0] == InternalAdd.key]
+                obs.append(Obligation(f"{pname}/inserts-through-Module.add", "post", list(s2.pc),
+                                      z3.BoolVal(len(adds) >= 1), key, f"insertion-{ri}", pi))
+                q = z3.String("qk")
+                ns1 = s2.heap.get("namespace", module.z)
+                obs.append(Obligation(f"{pname}/post.designer-names-kept", "post", list(s2.pc),
+                                      z3.ForAll([q], z3.Implies(z3.Select(ns0, q) != NULL,
+                                                                z3.Select(ns1, q) == z3.Select(ns0, q))),
+                                      key, f"insertion-{ri}", pi))
+        out.append((key, obs, info))
+    return out
